@@ -154,3 +154,34 @@ def lossless_bool_subpackets(ctx, P):
                     ok = True
             ctx.check(key, 'R-table', desc, ok, function=p, site='%s:%d' % (b.r['file'], b.line(i)), table=[list(x) for x in tab] if tab else None)
     ctx.floor(P + ':S05-8:floor', 'boolean subpacket parse sites', n, 3)
+
+
+RFC_IDS = {   # RFC 9580 §9.1–9.6, §5.2.1 (enum discriminants = wire ids)
+    'crypto::public_key::PublicKeyAlgorithm': {'RSA': 1, 'RSAEncrypt': 2, 'RSASign': 3, 'ElgamalEncrypt': 16, 'DSA': 17, 'ECDH': 18, 'ECDSA': 19, 'Elgamal': 20,
+                                               'DiffieHellman': 21, 'EdDSALegacy': 22, 'X25519': 25, 'X448': 26, 'Ed25519': 27, 'Ed448': 28},
+    'crypto::sym::SymmetricKeyAlgorithm': {'Plaintext': 0, 'IDEA': 1, 'TripleDES': 2, 'CAST5': 3, 'Blowfish': 4, 'AES128': 7, 'AES192': 8, 'AES256': 9, 'Twofish': 10,
+                                           'Camellia128': 11, 'Camellia192': 12, 'Camellia256': 13},
+    'crypto::hash::HashAlgorithm': {'Md5': 1, 'Sha1': 2, 'Ripemd160': 3, 'Sha256': 8, 'Sha384': 9, 'Sha512': 10, 'Sha224': 11, 'Sha3_256': 12, 'Sha3_512': 14},
+    'crypto::aead::AeadAlgorithm': {'Eax': 1, 'Ocb': 2, 'Gcm': 3},
+    'packet::signature::types::SignatureType': {'Binary': 0, 'Text': 1, 'Standalone': 2, 'CertGeneric': 16, 'CertPersona': 17, 'CertCasual': 18, 'CertPositive': 19,
+                                                'SubkeyBinding': 24, 'KeyBinding': 25, 'Key': 31, 'KeyRevocation': 32, 'SubkeyRevocation': 40, 'CertRevocation': 48,
+                                                'Timestamp': 64, 'ThirdParty': 80},
+    'types::compression::CompressionAlgorithm': {'Uncompressed': 0, 'ZIP': 1, 'ZLIB': 2, 'BZip2': 3},
+    'types::packet::KeyVersion': {'V2': 2, 'V3': 3, 'V4': 4, 'V5': 5, 'V6': 6},
+}
+
+
+def rfc_id_tables(ctx, P, only=None):
+    """Wire ids of the algorithm / type enums (their discriminants, which num_enum encodes and decodes) equal the RFC 9580 registries."""
+    for adt, want in RFC_IDS.items():
+        if only and not re.search(only, adt):
+            continue
+        a = ctx.f.adts.get(adt)
+        if a is None:
+            ctx.missing('%s:ids:%s' % (P, adt.split('::')[-1]), adt + ' not found')
+            continue
+        got = {v['n']: v['d'] for v in a['vars'] if not v['fields']}
+        bad = {n: got.get(n) for n, d in want.items() if got.get(n) != d}
+        clash = sorted(n for n, d in got.items() if n not in want and d in want.values())
+        ctx.check('%s:ids:%s' % (P, adt.split('::')[-1]), 'R-table', 'wire ids of %s equal the RFC 9580 registry' % adt.split('::')[-1], not bad and not clash, function=adt,
+                  table=got, missing=(bad or clash) or None)
